@@ -162,12 +162,12 @@ def compare(ctx, g, h, perm, prune, o1, o2):
 CASE = {"map": None}
 
 
-def check_case(ctx, g, rng, model=None, limit=5.0, shuffle=True, prunes=(True, False)):
+def check_case(ctx, g, rng, model=None, limit=5.0, shuffle=True, prunes=(True, False), perm=None):
     global rename, unrename
     import time as _t
     _t0 = _t.time()
     n = len(g["players"])
-    perm = gen.random_perm_fixing0(rng, n)
+    perm = perm or gen.random_perm_fixing0(rng, n)
     if rng.random() < 0.35:
         # renaming under which different actions differ only in letter case
         m = gen.case_rename_map(g)
@@ -193,7 +193,7 @@ def check_case(ctx, g, rng, model=None, limit=5.0, shuffle=True, prunes=(True, F
         if model is not None and n <= 400 and o2["outcome"] != "Timeout":
             model.add("solve", dict(wire.game_payload(h), prune=prune), expect=dict(o2, nodes=None),
                       inp={"game": gen.desc(h), "prune": prune} if n <= 30 else {"meta": g.get("_meta")},
-                      suite="corr.solve", cmp=wire.staged(ctx, set(wire.STAGES)))
+                      suite="corr.solve", cmp=wire.staged(ctx, {"outcome", "probs", "reachstrat", "rewards", "final"}))
     ctx.case({"game": gen.desc(g), "perm": perm} if n <= 30 else {"meta": g.get("_meta"), "perm_head": perm[:10]}, nt)
     ctx.count("family=" + str(g.get("_meta", {}).get("family", "?")).split(":")[0])
     import time as _t
@@ -218,8 +218,14 @@ def run(ctx, model=None):
     import analysis as _an0
     _an0.optimized_interpreter(ctx, [gen.decimal_sum_game(rng) for _ in range(6)] + [gen.stopping_game(rng) for _ in range(6)], "rewards-renumbered")
     for k in range(25 if ctx.quick() else 300):
+        check_case(ctx, gen.layered_tie_game(rng), rng, model)
+        check_case(ctx, gen.multi_final_game(rng), rng, None, limit=3.0)
         check_case(ctx, gen.tiny_dead_decimal_game(rng), rng, model)
         check_case(ctx, gen.tiny_best_game(rng), rng, model)
+    # an unreachable chain of more than a thousand states, numbered with and against its direction
+    with impl.forced_debug(False):
+        check_case(ctx, gen.cascade_game(1050), rng, None, limit=300.0, prunes=(True,))
+        check_case(ctx, gen.cascade_game(1050), rng, None, limit=300.0, prunes=(True,), perm=[0] + list(range(1052, 0, -1)))
     # numberings beyond every "round" size (4096, 10^4, 2^16 states): wide shallow games, 3 sweeps under any numbering
     with impl.forced_debug(False):
         for nn in ([10500, 66000] if ctx.quick() else [4100, 10001, 10500, 65537, 66000, 140000]):
